@@ -6,4 +6,6 @@ cd "$(dirname "$0")"
 mkdir -p .build evidence replays
 python3 tools/genoverlay.py .build/overlay
 go build -overlay .build/overlay/overlay.json -o .build/vcheck ./cmd/vcheck
+# warm the cache of the race-instrumented variant used by the C17 data-race pass
+go build -race -overlay .build/overlay/overlay.json -o .build/vcheck-race ./cmd/vcheck || echo "race build unavailable"
 echo "setup ok"
